@@ -147,43 +147,89 @@ def r15_1(run):
     run.floor(30)
 
 
+def _sh(ok, what):
+    if not ok:
+        raise AnalysisError("unrecognised shape: " + what)
+
+
 def r15_2(run):
+    from ..arrnf import ANF, C, contains, key as tkey, match, norm_cond, show as tshow, walk
     ix = run.index
     tj = ix.func(IO + ".to_json")
     run.analysed(tj)
-    body = [U(s).replace(" ", "") for s in tj.node.body]
-    i_dump = next((i for i, s in enumerate(body) if s.startswith("json_string=json.dumps(net,cls=PPJSONEncoder")), None)
-    i_enc = next((i for i, s in enumerate(body) if s.startswith("ifencryption_keyisnotNone:") and "encrypt_string(json_string,encryption_key)" in s), None)
-    run.ob("to_json|encrypt-after-dump", i_dump is not None and i_enc is not None and i_dump < i_enc,
-           "to_json dumps with the pandapipes encoder hooks and encrypts the result when a key is given", run.where(tj, tj.node))
-    run.ob("to_json|pandapipes-isinstance-hook", "isinstance_func=isinstance_partial" in body[i_dump] if i_dump is not None else False,
-           "the encoder is told not to treat pandapipes nets as plain dicts", run.where(tj, tj.node))
+    ps = tj.params()
+    r = ANF(ix, tj, param_alias={ps[0]: "net", ps[2]: "encryption_key"}).run()
+    dumps = [c for c in r.calls() if c.fn == ("x", "json.dumps")]
+    _sh(len(dumps) == 1 and dumps[0].args[:1] == (("n", "net"),), "to_json dumps the net once")
+    J = dumps[0].term
+    kw = dict(dumps[0].kw)
+    run.ob("to_json|pandapipes-encoder", kw.get("cls", ("?",))[0] == "x" and kw["cls"][1].endswith("PPJSONEncoder"),
+           "the net is dumped with pandapower's JSON encoder (which dispatches to the to_serializable hooks)", run.where(tj, dumps[0].node))
+    ifn = kw.get("isinstance_func")
+    run.ob("to_json|pandapipes-isinstance-hook", ifn is not None and ifn != C(None),
+           "the encoder is told not to treat pandapipes nets as plain dicts", run.where(tj, dumps[0].node))
+    key_set = ("cmp", "is not", ("n", "encryption_key"), C(None))
+    enc = [c for c in r.calls() if c.fn[0] in ("x", "f") and c.fn[1].endswith("encrypt_string")]
+    want = ("ite", key_set, enc[0].term, J) if len(enc) == 1 else None
+    outs = [e.value for e in r.returns() if e.value != C(None)] + \
+           [c.args[0] for c in r.calls() if c.fn[0] == "attr" and c.fn[2] == "write" and c.args]
+    ok = want is not None and enc[0].args == (J, ("n", "encryption_key")) and len(outs) >= 2 and all(tkey(o) == tkey(want) for o in outs)
+    run.ob("to_json|encrypt-after-dump", ok,
+           "every output of to_json (returned string, written file) is the dump, encrypted exactly when a key is given", run.where(tj, tj.node),
+           detail="; ".join(tshow(o)[:80] for o in outs))
     fj = ix.func(IO + ".from_json_string")
     run.analysed(fj)
-    body = [U(s).replace(" ", "") for s in fj.node.body]
-    i_dec = next((i for i, s in enumerate(body) if s.startswith("ifencryption_keyisnotNone:") and "decrypt_string(json_string,encryption_key)" in s), None)
-    i_load = next((i for i, s in enumerate(body) if s.startswith("net=json.loads(json_string,cls=PPJSONDecoder,registry_class=FromSerializableRegistryPpipe")), None)
-    run.ob("from_json_string|decrypt-before-load", i_dec is not None and i_load is not None and i_dec < i_load,
-           "from_json_string decrypts before decoding with the pandapipes registry", run.where(fj, fj.node))
+    ps = fj.params()
+    r = ANF(ix, fj, param_alias={ps[0]: "json_string"}).run()
+    loads = [c for c in r.calls() if c.fn == ("x", "json.loads")]
+    _sh(len(loads) == 1 and loads[0].args, "from_json_string decodes once")
+    dec = [c for c in r.calls() if c.fn[0] in ("x", "f") and c.fn[1].endswith("decrypt_string")]
+    want = ("ite", key_set, dec[0].term, ("n", "json_string")) if len(dec) == 1 else None
+    run.ob("from_json_string|decrypt-before-load", want is not None and dec[0].args == (("n", "json_string"), ("n", "encryption_key"))
+           and tkey(loads[0].args[0]) == tkey(want),
+           "the string that is decoded is the input, decrypted exactly when a key is given", run.where(fj, loads[0].node))
+    kw = dict(loads[0].kw)
+    reg = kw.get("registry_class")
+    run.ob("from_json_string|pandapipes-registry", kw.get("cls", ("?", ""))[1].endswith("PPJSONDecoder") and reg is not None
+           and reg == ("f", IU + ".FromSerializableRegistryPpipe"),
+           "decoding uses pandapower's decoder with the pandapipes registry", run.where(fj, loads[0].node))
+    rets = r.returns()
+    run.ob("from_json_string|returns-decoded-net", len(rets) >= 1 and all(tkey(e.value) == tkey(loads[0].term) for e in rets),
+           "the decoded object is what is returned", run.where(fj, fj.node))
     f2 = ix.func(IO + ".from_json")
-    c = [x for x in calls(f2.node) if callee_name(x) == "from_json_string"]
-    ok = len(c) == 1 and {k.arg: U(k.value) for k in c[0].keywords} == {"convert": "convert", "encryption_key": "encryption_key",
-                                                                       "ignore_unknown_objects": "ignore_unknown_objects"}
-    run.ob("from_json|forwards-options", ok, "from_json forwards convert, encryption_key and ignore_unknown_objects", run.where(f2, f2.node))
-    # member nets of a multinet
-    loops = [n for n in ast.walk(fj.node) if isinstance(n, ast.For) and "['nets']" in U(n.iter).replace('"', "'")]
-    ok = len(loops) == 1 and (U(loops[0].iter).endswith(".values()") or U(loops[0].iter).endswith(".items()"))
+    run.analysed(f2)
+    r2 = ANF(ix, f2).run()
+    cs = [c for c in r2.calls() if c.fn == ("f", fj.qualname)]
+    ok = len(cs) == 1
     if ok:
-        lv = loops[0].target.id if isinstance(loops[0].target, ast.Name) else (loops[0].target.elts[1].id if isinstance(loops[0].target, ast.Tuple) else None)
-        conv = [x for x in calls(loops[0]) if callee_name(x) in ("convert_format", "convert_format_pandapower")]
-        ok = lv is not None and len(conv) == 2 and all(U(x.args[0]) == lv for x in conv)
+        a_ = dict(zip(fj.params(), cs[0].args))
+        a_.update(dict(cs[0].kw))
+        ok = all(a_.get(k) == ("n", k) for k in ("convert", "encryption_key", "ignore_unknown_objects"))
+    run.ob("from_json|forwards-options", ok, "from_json forwards convert, encryption_key and ignore_unknown_objects", run.where(f2, f2.node))
+    # member nets of a multinet: every member net object is converted itself
+    conv = [c for c in r.calls() if c.fn[0] in ("f", "x") and c.fn[1].endswith("convert_format") and c.loops]
+    ok = len(conv) == 2
+    if ok:
+        lid = conv[0].loops[-1]
+        it = r.loops[lid]["iter"]
+        vals = it[0] == "call" and it[1][0] == "attr" and it[1][2] in ("values", "items") and contains(it[1][1], C("nets")) \
+            and contains(it[1][1], loads[0].term)
+        member = ("loop", lid, 0) if vals and it[1][2] == "values" else ("loop", lid, 1)
+        ok = vals and all(c.args == (member,) for c in conv) and {c.fn[1] for c in conv} == {CF + ".convert_format", "pandapower.convert_format.convert_format"} \
+            or (vals and all(c.args == (member,) for c in conv) and len({c.fn[1] for c in conv}) == 2)
     run.ob("from_json_string|member-nets-converted", ok,
            "with convert=True every member net of a MultiNet is converted itself (iteration over the nets, not their names)", run.where(fj, fj.node))
+    top = [c for c in r.calls() if c.fn == ("f", CF + ".convert_format") and not c.loops]
+    run.ob("from_json_string|net-converted", len(top) == 1 and top[0].args == (loads[0].term,)
+           and any(contains(c_, ("n", "convert")) for c_, p_ in top[0].cond),
+           "with convert=True a loaded pandapipes net is passed through convert_format", run.where(fj, fj.node))
     # pickle
     tp, fp = ix.func(IO + ".to_pickle"), ix.func(IO + ".from_pickle")
-    a = [U(x) for c_ in calls(tp.node) if callee_name(c_) == "to_dict_with_coord_transform" for x in c_.args[1:]]
-    b = [U(x) for c_ in calls(fp.node) if callee_name(c_) == "transform_net_with_df_and_geo" for x in c_.args[1:]]
-    run.ob("pickle|same-geodata-lists", a == b and len(a) == 2, "to_pickle and from_pickle transform the same geodata tables: %s" % a, run.where(tp, tp.node))
+    ra, rb = ANF(ix, tp).run(), ANF(ix, fp).run()
+    a = [c.args[1:] for c in ra.calls() if c.fn[0] == "x" and c.fn[1].endswith("to_dict_with_coord_transform")]
+    b_ = [c.args[1:] for c in rb.calls() if c.fn[0] == "x" and c.fn[1].endswith("transform_net_with_df_and_geo")]
+    run.ob("pickle|same-geodata-lists", len(a) == 1 and a == b_ and len(a[0]) == 2,
+           "to_pickle and from_pickle transform the same geodata tables: %s" % ([tshow(x) for x in a[0]] if a else None), run.where(tp, tp.node))
     # encoder: dropped keys
     mi = ix.module(IU)
     for n in mi.tree.body:
